@@ -106,3 +106,20 @@ prop("C10",
          {"name": "miri", "build": "miri-sb", "bin": "c10", "shards": {"quick": 5, "thorough": 16}, "timeout": {"quick": 1500, "thorough": 7200}},
          {"name": "asan", "build": "asan", "bin": "c10"},
      ])
+
+prop("C09",
+     technique="runtime monitoring: event-log monitor (instrumented Probe nodes) checked offline against an own-graph oracle (BFS ancestors, input multisets, topological order, functional evaluation); Miri (Tree Borrows) and ASan stages",
+     level_text=("Every directed multigraph on 1..=3 nodes with edge multiplicity 0..=2 x every output x {Graph, StableGraph} (both tiers), every simple digraph with loops on "
+                 "4 nodes (all 2^16 thorough, 1/16 sample quick), StableGraph after removing every subset of <= 2 nodes and re-adding, random graphs to 24/64 nodes processed "
+                 "three times, one Processor reused across the whole run and a fresh one per call. Each call's invocation log is checked for exactly-once over the "
+                 "upstream set, one input per incoming edge referring to the neighbour's buffers, no self-aliasing, inputs-first order and functional values when acyclic; "
+                 "sources()/sinks() against the live nodes. Miri-TB/ASan watch the raw NodeData pointer next to live Input slices. Exploration: graph size is unbounded."),
+     level_note="trusted: the harness's 40-line BFS/Kahn oracle; petgraph's add_node/add_edge/remove_node build the graph the edge list describes (the oracle never calls petgraph traversal)",
+     rule=("cases are (container, graph description, output node, call number); enumerated small graphs + seeded random ones; non-trivial = has a self-loop, parallel or "
+           "back edge, or a removed node (anything beyond the hand-built DAGs of the test-suite); distinct by hash of (container, sorted edge list, removals, output)"),
+     stages=[
+         {"name": "main", "build": "fast", "bin": "c09"},
+         {"name": "miri", "build": "miri-tb", "bin": "c09", "shards": {"quick": 8, "thorough": 16}, "set": {"thin3": {"quick": 997, "thorough": 61}, "rand": {"quick": 3, "thorough": 12}},
+          "timeout": {"quick": 1500, "thorough": 7200}},
+         {"name": "asan", "build": "asan", "bin": "c09"},
+     ])
